@@ -484,22 +484,39 @@ func libraryCrash(trace string) bool {
 	return strings.HasPrefix(trace, "fatal error: concurrent map") && strings.Contains(fg, "main.renderDelivered")
 }
 
-// raceKey: pair of outermost library functions of the two stacks, line numbers stripped.
+// raceKey: pair of outermost library functions of the two stacks, line numbers stripped. A report is the library's when at
+// least one of the two conflicting accesses was made by library code - the innermost frame of that stack that is neither
+// runtime nor standard library belongs to the library. A report in which both accesses were made by harness code (an
+// unsynchronised field of a test double, say), however deep inside a library call, is the harness's own and never a verdict.
 func raceKey(rep string) (string, bool) {
 	parts := regexp.MustCompile(`(?m)^(Write at|Read at|Previous write at|Previous read at|Goroutine \d+ .*created at)`).Split(rep, -1)
 	fr := []string{}
-	for _, p := range parts[1:] {
-		if m := frameRe.FindStringSubmatch(p); m != nil {
+	libAccess := false
+	for n, p := range parts[1:] {
+		if m := frameRe.FindStringSubmatch(p); m != nil && len(fr) < 2 {
 			fr = append(fr, m[1]+"."+m[2])
 		}
-		if len(fr) == 2 {
-			break
+		if n < 2 {
+			// who made this access: the first frame that is library or harness code
+			for _, line := range strings.Split(p, "\n") {
+				t := strings.TrimSpace(line)
+				if strings.HasPrefix(t, "github.com/uhppoted/uhppote-core/") {
+					libAccess = true
+					break
+				}
+				if strings.HasPrefix(t, "verif/harness/") || strings.HasPrefix(t, "main.") {
+					break
+				}
+			}
 		}
 	}
 	if len(fr) == 0 {
 		return "no-library-frame", false
 	}
 	sort.Strings(fr)
+	if !libAccess {
+		return "both-accesses-in-harness-code:" + strings.Join(fr, "|"), false
+	}
 	return strings.Join(fr, "|"), true
 }
 
